@@ -29,7 +29,7 @@ func init() {
 		Level: "exploration",
 		Modes: []Mode{{Name: "gate", Weight: 1}},
 		Gen:   genC12, Run: runC12,
-		QuickRuns: 5000, ThoroughRuns: 50000,
+		QuickRuns: 5000, ThoroughRuns: 300000,
 		Rule: "plan = (namespace / or /admin, chain of 0..5 middlewares each with delay 0..400 ms, reject mask over clients, rejection form error|string|struct, optional room joined before deciding; 1..4 clients with connect instants; 0..12 namespace broadcasts at drawn instants; per admitted socket 0..6 events out of {string-first, int-first, with ack, rejected name}; transport; network and stall parameters) from VERIF_SEED; " +
 			"non-trivial = at least one client was rejected and one admitted, or a broadcast was issued while a chain was running, or an event was rejected; distinct = distinct history digest",
 		Assumptions: []string{
